@@ -387,6 +387,13 @@ def library_membership(ctx, idx, rule, init):
         libvar = None
         inner = None
         pre = None
+        if isinstance(cond, ast.BoolOp) and isinstance(cond.op, ast.Or):
+            # `<module> == "<some name>" or <the test of the requested libraries>`: that module's commands come along whatever was asked for
+            fixed = [v_ for v_ in cond.values if isinstance(v_, ast.Compare) and len(v_.ops) == 1 and isinstance(v_.ops[0], (ast.Eq, ast.In)) and isinstance(v_.left, ast.Attribute) and v_.left.attr in ("module", "__module__")
+                     and isinstance(v_.comparators[0], (ast.Constant, ast.Tuple, ast.List, ast.Set)) and all(isinstance(c_, ast.Constant) for c_ in ([v_.comparators[0]] if isinstance(v_.comparators[0], ast.Constant) else v_.comparators[0].elts))]
+            if fixed:
+                ctx.violate(rule, con, K.rel(init), fixed[0].lineno, "`%s` selects the commands of a fixed module whether or not it was requested: what a program can use then depends on the classes the running script (or an earlier import) happened to define - `Program(libraries=())` is not empty, and a scratch class named like a library command makes the construction fail as 'duplicated'" % K.src(fixed[0]))
+                return comp
         if isinstance(cond, ast.Call) and isinstance(cond.func, ast.Name) and cond.func.id == "any" and cond.args and isinstance(cond.args[0], (ast.GeneratorExp, ast.ListComp)):
             ig = cond.args[0].generators[0]
             if isinstance(ig.target, ast.Name) and isinstance(ig.iter, ast.Name):
@@ -479,6 +486,13 @@ def run(ctx, idx):
                    "`%s` is replaced by a default only when it is None, if at all" % pn if bad_ is None else
                    "`%s` replaces a falsy `%s` by a default: a program asked for with no libraries (`()` / `[]`) gets the default libraries' commands instead of none" % (K.src(bad_)[:60], pn))
     ctx.floor("C19.d", "library request parameters", n_req, 2)
+    # ... and the names in it are used as given: str.strip / rstrip / lstrip take a SET of characters, not a suffix
+    for m_ in [init] + ([prog.methods["load_commands"]] if "load_commands" in prog.methods else []):
+        node0 = getattr(m_, "node_orig", None) or m_.node
+        for c_ in ast.walk(node0):
+            if isinstance(c_, ast.Call) and isinstance(c_.func, ast.Attribute) and c_.func.attr in ("strip", "rstrip", "lstrip") and c_.args and isinstance(c_.args[0], ast.Constant) \
+                    and isinstance(c_.args[0].value, str) and len(c_.args[0].value) > 1:
+                ctx.violate("C19.d", "%s::library-names-as-given" % m_.key, K.rel(m_), c_.lineno, "`%s` removes every trailing / leading character that is IN %r, not that suffix: `proxy.py` becomes `prox`, `supply.py` `suppl` - when a library of the shortened name exists it is loaded and selected instead of the one requested" % (K.src(c_)[:50], c_.args[0].value))
     ctx.rule("C19.e", "Constructing a program leaves the process's import machinery as it found it: Program.__init__ / from_source and what they call do not extend or reorder sys.path, edit sys.modules / sys.meta_path / sys.path_hooks, call site.addsitedir or change the working directory - a search path added for one program decides which module a later program's library name resolves to.")
     n_fn = 0
     for f_ in K.helper_closure(idx, init) + ([prog.methods["from_source"]] if "from_source" in prog.methods else []):
